@@ -20,6 +20,13 @@ UNROLL_LIMIT = 600
 MAX_DEPTH = 60
 
 
+TASK_BUDGET_S = int(os.environ.get("VERIF_TASK_BUDGET_S", "600"))       # per task and worker; 0 = unlimited
+
+
+class BudgetExceeded(Unsupported):
+    """the task ran out of its wall-clock budget: undecided (never a violation)"""
+
+
 class LoopSpec:
     """Loop contract.  Override what is needed.
 
@@ -122,6 +129,8 @@ class Interp:
         self.begin_path([])
 
     # ------------------------------------------------------------------ path management
+    deadline = None
+
     def begin_path(self, prefix):
         self.prefix = list(prefix)
         self.decisions = []
@@ -147,7 +156,11 @@ class Interp:
         work = [list(p) for p in start] if start is not None else [[]]
         n = 0
         self.leftover = []
+        if self.deadline is None and TASK_BUDGET_S > 0:
+            self.deadline = _time.time() + TASK_BUDGET_S
         while work:
+            if self.deadline is not None and _time.time() > self.deadline:
+                raise BudgetExceeded(f"task time budget of {TASK_BUDGET_S} s exceeded after {n} paths")
             if budget is not None and n >= budget:
                 self.leftover = work
                 return n
@@ -1969,6 +1982,11 @@ class Interp:
             yield from self.exec_stmt(s, fr)
 
     def exec_stmt(self, s, fr):
+        # wall-clock budget of the task (DESIGN 10.6): checked every few hundred statements, so that neither a path that does
+        # not end nor a path tree that does not end can keep a check running; exceeding it makes the TASK undecided
+        self._steps = getattr(self, "_steps", 0) + 1
+        if self._steps % 256 == 0 and self.deadline is not None and _time.time() > self.deadline:
+            raise BudgetExceeded(f"task time budget of {TASK_BUDGET_S} s exceeded")
         m = getattr(self, "s_" + type(s).__name__, None)
         if m is None:
             raise Unsupported(f"statement {type(s).__name__}")
